@@ -140,6 +140,18 @@ def gen_cases(seed, tier):
     cases.append(CliCase(f"clif{k}", "", None, b"ab\nab", b"ab\n", [], True)); k += 1        # duplicate
     cases.append(CliCase(f"clif{k}", "", None, b"\n\n", b"ab\n", [], True)); k += 1          # empty list
     cases.append(CliCase(f"clif{k}", "n", b"ab\n", b"ab", b"ab\n", [], True)); k += 1        # duplicate across -f/-p
+    # OUTSIDE the property (it speaks of UTF-8 input): lines that are not UTF-8.  BufRead::lines() hands
+    # out an error for such a line; main stops reading that source (stdin / the -f file: status 1).
+    # Compared with the extracted cli_main_raw (Model/CliRaw.v); a difference here is recorded in the
+    # evidence and raises no alarm.
+    bad = [b"\xff", b"a\xc3", b"\xe3\x81", b"\xc0\xaf", b"\xed\xa0\x80", b"x\xf4\x90\x80\x80", b"ab\x80\r"]
+    for j, b in enumerate(bad):
+        fl = all_flags[j % len(all_flags)]
+        body = b"ab\nxbcx\n" + b + b"\nabc\nzz\n"
+        cases.append(CliCase(f"clir{k}", fl.replace("h", ""), None, b"ab\nbc", body, [], True)); k += 1
+        cases.append(CliCase(f"clir{k}", fl, None, b"ab\nbc", b"", [("in0.txt", body), ("in1.txt", b"bcd\n" + b)], False)); k += 1
+    cases.append(CliCase(f"clir{k}", "", b"ab\n\xff\nbc\n", None, b"ab\n", [], True)); k += 1
+    cases.append(CliCase(f"clir{k}", "n", b"ab\nbc\n", b"zz", b"\xc3\nab\n", [], True)); k += 1
     while len(cases) < n:
         pats = list(dict.fromkeys(rng.choice(WORDS) for _ in range(rng.range(1, 5))))
         fl = rng.choice(all_flags)
@@ -280,13 +292,17 @@ def oracle(c, rc, out, spec):
 def parse_model(text):
     res = {}
     for cid, lines in vlib.parse_obs(text).items():
-        r = {"out": None, "exit": None, "build": None, "lines": []}
+        r = {"out": None, "exit": None, "rout": None, "rexit": None, "build": None, "lines": []}
         for l in lines:
             p = l.split(" ")
             if p[0] == "OUT":
                 r["out"] = p[1]
             elif p[0] == "EXIT":
                 r["exit"] = int(p[1])
+            elif p[0] == "ROUT":
+                r["rout"] = p[1]
+            elif p[0] == "REXIT":
+                r["rexit"] = int(p[1])
             elif p[0] == "SPECBUILD":
                 r["build"] = p[1]
             elif p[0] == "SPECLINE":
@@ -330,6 +346,7 @@ def main(prop, tier, seed, replay):
         rc, mout = vlib.sh(f"ulimit -s unlimited 2>/dev/null; exec {os.path.join(vlib.BUILD, 'driver', 'driver')} {cf}", timeout=1800)
         model = parse_model(mout)
     dis, viol = [], []
+    raw_dis, raw_total = [], 0
     real = {}
     with ThreadPoolExecutor(max_workers=vlib.NCPU) as ex:
         futs = {(prof, c.id): ex.submit(run_real, exe, c, os.path.join(wd, prof)) for prof, exe in exes.items() for c in cases}
@@ -342,10 +359,22 @@ def main(prop, tier, seed, replay):
             if m is None:
                 dis.append({"case": c.id, "profile": prof, "impl": "?", "model": "#MISSING"})
                 continue
+            unhex = lambda h: b"" if h == "-" else (bytes.fromhex(h) if re.fullmatch(r"[0-9a-f]*", h) else None)
+            ro = m["rout"] or ""
+            rout = unhex(ro)
+            if c.id.startswith("clir"):
+                # not UTF-8: outside the property; the tie to cli_main_raw is recorded only
+                raw_total += 1
+                if rout is None or rout != out or m["rexit"] != rc:
+                    raw_dis.append({"case": c.id, "profile": prof, "impl": f"exit {rc} out {out[:80]!r}", "model": f"exit {m['rexit']} out {ro[:160]}"})
+                continue
             mo = m["out"] or ""
-            mout = b"" if mo == "-" else (bytes.fromhex(mo) if re.fullmatch(r"[0-9a-f]*", mo) else None)
+            mout = unhex(mo)
             if mout is None or mout != out or m["exit"] != rc:
                 dis.append({"case": c.id, "profile": prof, "impl": f"exit {rc} out {out[:80]!r}", "model": f"exit {m['exit']} out {mo[:160]}"})
+            elif rout != mout or m["rexit"] != m["exit"]:
+                # cli_main_raw_on_utf8_lines: on UTF-8 input the two models are one program
+                dis.append({"case": c.id, "profile": prof, "impl": f"exit {rc} out {out[:80]!r}", "model": f"cli_main_raw differs from cli_main: exit {m['rexit']} out {ro[:160]}"})
             for w in oracle(c, rc, out, m):
                 viol.append({"case": c.id, "profile": prof, "what": w, "detail": err[:300].decode("utf-8", "replace")})
     by_id = {c.id: c for c in cases}
@@ -406,6 +435,8 @@ def main(prop, tier, seed, replay):
             "samples": samples, "profiles": list(exes.keys()),
             "flag_distribution": {f or "(none)": sum(1 for c in cases if c.flags == f) for f in sorted({c.flags for c in cases})},
             "oracle_violations": len(viol), "explanation": lv["text"],
+            "outside_property_non_utf8_input": {"what": "inputs with a line that is not UTF-8 (the property speaks of UTF-8 input only): real binaries vs the extracted cli_main_raw (Model/CliRaw.v; theorems cli_main_raw_on_utf8_lines, cli_main_raw_lemma in Proofs/CliRawMain.v); recorded, never an alarm",
+                                                "evaluations": raw_total, "differences": raw_dis[:5]},
         },
         "assumptions": levels.ASSUMPTIONS.get(prop, []) + levels.COMMON_ASSUMPTIONS,
         "wall_s": round(time.time() - T0, 2), "violations": 1 if exit_code else 0,
